@@ -7,7 +7,7 @@
      6 LPopen a (b<>0) | 7 LExit a | 8 LCommRet a (answer b: 0 unsat 1 sat 2 unknown 3 garbage)
      9 LCommTimeout a | 10 LCommExc a | 11 LFinally a | 12 LSetResult a
      13 LSdSet a | 14 LSdAcquire a | 15 LSdCancel a b | 16 LSdSnap a | 17 LSdJoin a | 18 LSdReturn a
-     19 LSdRaise a | 20 LSubRecheck a | 21 LSubUnlock a | 22 LSdRelease a *)
+     19 LSdRaise a | 20 LSubRecheck a | 21 LSubUnlock a | 22 LSdRelease a | 23 LSpawnEnter a *)
 From Coq Require Import ZArith List Bool String.
 From Coq Require Extraction.
 From Coq Require Import ExtrOcamlBasic ExtrOcamlString.
@@ -38,6 +38,7 @@ Definition dec_label (t a b : Z) : option label :=
   | 13 => Some (LSdSet j) | 14 => Some (LSdAcquire j) | 15 => Some (LSdCancel j (nz b))
   | 16 => Some (LSdSnap j) | 17 => Some (LSdJoin j) | 18 => Some (LSdReturn j) | 19 => Some (LSdRaise j)
   | 20 => Some (LSubRecheck j) | 21 => Some (LSubUnlock j) | 22 => Some (LSdRelease j)
+  | 23 => Some (LSpawnEnter j)
   | _ => None
   end.
 
@@ -52,6 +53,7 @@ Definition enc_label (l : label) : list Z :=
   | LSdSnap k => [16; zn k; 0] | LSdJoin k => [17; zn k; 0] | LSdReturn k => [18; zn k; 0]
   | LSdRaise k => [19; zn k; 0]
   | LSubRecheck j => [20; zn j; 0] | LSubUnlock j => [21; zn j; 0] | LSdRelease k => [22; zn k; 0]
+  | LSpawnEnter j => [23; zn j; 0]
   end.
 
 Fixpoint dec_labels (fuel : nat) (l : list Z) : option (list label) :=
@@ -97,13 +99,14 @@ Definition enc_spc (p : spc_t) : list Z :=
   | SRecheck => [8; -1] | SUnlock => [9; -1]
   end.
 Definition enc_wpc (w : wpc_t) : Z :=
-  match w with WNew => 0 | WStarted => 1 | WComm => 2 | WFinally => 3 | WSetRes => 4 | WDone => 5 | WDead => 6 end.
+  match w with WNew => 0 | WStarted => 1 | WComm => 2 | WFinally => 3 | WSetRes => 4 | WDone => 5 | WDead => 6 | WSpawn => 7 end.
 Definition enc_proc (p : proc_t) : Z := match p with PNone => 0 | PRun => 1 | PDead => 2 end.
 Definition enc_exc (e : option exn) : Z :=
   match e with None => 0 | Some ETimeout => 1 | Some EOther => 2 end.
 Definition enc_out (o : option answer) : Z := match o with None => -1 | Some a => enc_answer a end.
 Definition enc_job (jb : job) : list Z :=
-  enc_spc (spc jb) ++ [enc_wpc (wpc jb); enc_proc (proc jb); enc_exc (exc jb); enc_out (out jb); zn (sets jb)].
+  enc_spc (spc jb) ++ [enc_wpc (wpc jb); enc_proc (proc jb); enc_exc (exc jb); enc_out (out jb); zn (sets jb);
+                       zb (creq jb); zb (slock jb)].
 Definition enc_list (l : list nat) : list Z := zn (List.length l) :: map zn l.
 Definition enc_sd (s : sd) : list Z :=
   match dpc s with
@@ -113,7 +116,7 @@ Definition enc_sd (s : sd) : list Z :=
 Definition enc_lock (l : option owner) : list Z :=
   match l with None => [0; 0] | Some (OSub j) => [1; zn j] | Some (OSd k) => [2; zn k] end.
 
-(* observation of a state: [1; flag; lockkind; lockid; |reg|; reg..; jobs (7 each)..; sds (2+|pending| each)..] *)
+(* observation of a state: [1; flag; lockkind; lockid; |reg|; reg..; jobs (9 each)..; sds (2+|pending| each)..] *)
 Definition enc_state (st : state) : list Z :=
   [1; zb (flag st)] ++ enc_lock (lock st) ++ enc_list (reg st)
   ++ flat_map enc_job (jobs st) ++ flat_map enc_sd (sds st).
@@ -157,7 +160,8 @@ Definition thread_of (l : label) : nat :=
   match l with
   | LSubCheck j | LSubAcquire j | LSubRecheck j | LSubUnlock j | LSubAppend j | LSubStart j
   | LSubRelease j | LSubWait j => 4 * j
-  | LPopen j _ | LExit j | LCommRet j _ | LCommTimeout j | LCommExc j | LFinally j | LSetResult j => 4 * j + 1
+  | LSpawnEnter j | LPopen j _ | LExit j | LCommRet j _ | LCommTimeout j | LCommExc j | LFinally j
+  | LSetResult j => 4 * j + 1
   | LSdSet k | LSdAcquire k | LSdCancel k _ | LSdSnap k | LSdRelease k | LSdJoin k | LSdRaise k
   | LSdReturn k => 4 * k + 2
   end.
